@@ -267,8 +267,10 @@ theorem tw_walk_children (hs : H.Sound) {S S' : List (Key × VH)} (hS : KeysOK S
       show TW.conclude H cfg _ = _
       unfold TW.conclude
       exact tw_compactUp_idle H cfg _ _ hi.pos
-    rw [hconc, hi.cpr, hi.log]
-    exact ⟨fun e he => by cases he, fun e he => by cases he⟩
+    rw [hconc]
+    refine ⟨?_, ?_⟩
+    · intro e he; rw [hi.cpr] at he; cases he
+    · intro e he; rw [hi.log] at he; cases he
   · simp only [List.nil_append] at hinv
     obtain ⟨_, _, _, c4, c5, _⟩ := tw_conclude_spec H D hs hS' hso hrep cfg _ hinv a' rfl
     exact ⟨c5, c4⟩
